@@ -431,6 +431,11 @@ fn pipe_out(cfg: &Cfg) {
         if got.len() > n as usize + 2 {
             break;
         }
+        // `d2`: the consumer changes the back-pressure depth after its first read, while items may be buffered and the
+        // producer may be throttled
+        if got.len() == 1 && cfg.opt("d2", 0) > 0 {
+            out.set_backpressure_depth(cfg.opt("d2", 0) as usize);
+        }
     }
     rt::note(&prev);
     let expect: Vec<u32> = (1..=n).map(|i| i + 100).collect();
